@@ -61,7 +61,7 @@ static struct udict_mgr *udict_mgr;
 static struct uref_mgr *uref_mgr;
 
 /* ---- per-thread logs ---- */
-enum { W_REMOTE_ENTRY = 1, W_SINK_INPUT, W_SINK_FLOWDEF, W_MAIN_EVENT, W_REMOTE_EVENT };
+enum { W_REMOTE_ENTRY = 1, W_SINK_INPUT, W_SINK_FLOWDEF, W_MAIN_EVENT, W_REMOTE_EVENT, W_REMOTE_INPUT, W_REMOTE_FLOWDEF };
 struct wev { int kind, thread, a; uint64_t b; };
 #define MAXLOG 2048
 static struct { struct wev e[MAXLOG]; int n; } logs[2];
@@ -110,6 +110,7 @@ static void remote_input(struct upipe *upipe, struct uref *uref, struct upump **
 {
     struct remote *r = remote_from_upipe(upipe);
     wlog(W_REMOTE_ENTRY, RE_INPUT, r->transferred);
+    { uint64_t seq = UINT64_MAX; uref_attr_get_unsigned(uref, &seq, UDICT_TYPE_UNSIGNED, "x.seq"); wlog(W_REMOTE_INPUT, 0, seq); }
     r->inputs++;
     if (r->output) upipe_input(r->output, uref, upump_p); else uref_free(uref);
 }
@@ -120,6 +121,7 @@ static int remote_control(struct upipe *upipe, int command, va_list args)
         case UPIPE_ATTACH_UPUMP_MGR: r->transferred = true; wlog(W_REMOTE_ENTRY, RE_ATTACH, 1); return UBASE_ERR_NONE;
         case UPIPE_SET_FLOW_DEF: {
             wlog(W_REMOTE_ENTRY, RE_SET_FLOW_DEF, r->transferred);
+            wlog(W_REMOTE_FLOWDEF, 0, 0);
             struct uref *fd = va_arg(args, struct uref *);
             return r->output ? upipe_set_flow_def(r->output, fd) : UBASE_ERR_NONE;
         }
@@ -192,6 +194,7 @@ static struct upipe_mgr *xfer_mgr;
 static struct uprobe *pthread_probe;
 static struct upipe *handle, *app_sink;
 static int nbuf, in_q, out_q;
+static int wkind;       /* 0 linear worker (wlin), 1 sink worker (wsink): the remote pipe is the end of the line */
 static bool worker_attached, app_done;
 static struct vh_rng rngs[2];
 
@@ -233,7 +236,7 @@ static void application(void *arg)
     perturb_rng = free_running ? &rngs[0] : NULL;
     uprobe_pthread_upump_mgr_set(pthread_probe, loops[0]);   /* thread-local: this thread's loop */
     upipe_attach_upump_mgr(handle);
-    upipe_set_output(handle, app_sink);
+    if (wkind == 0) upipe_set_output(handle, app_sink);
     struct uref *fd = uref_alloc_control(uref_mgr);
     uref_flow_set_def(fd, "void.");
     upipe_set_flow_def(handle, fd);
@@ -267,6 +270,8 @@ static void run_case(struct vh_rng *r)
     static const int qs[] = { 1, 2, 3, 7, 255 };
     in_q = qs[vh_below(R, 5)]; out_q = qs[vh_below(R, 5)];
     int xfer_q = vh_chance(R, 1, 2) ? 255 : 8 + (int)vh_below(R, 24);
+    wkind = vh_chance(R, 1, 3) ? 1 : 0;
+    vh_count_dyn("c06.worker_kind.%s", wkind ? "wsink" : "wlin");
     enum sched_strategy st = (enum sched_strategy)vh_below(R, 3);
     vh_tr("wlin nbuf=%d in_q=%d out_q=%d xfer_q=%d strategy=%d", nbuf, in_q, out_q, xfer_q, st);
     for (int t = 0; t < 2; t++) {
@@ -298,7 +303,13 @@ static void run_case(struct vh_rng *r)
     struct upipe_mgr *wlin_mgr = upipe_wlin_mgr_alloc(xfer_mgr);
     upipe_mgr_release(xfer_mgr);
     app_sink = upipe_void_alloc(&asink_mgr, uprobe_use(&main_probe));
-    handle = upipe_wlin_alloc(wlin_mgr, uprobe_use(&main_probe), remote, uprobe_use(&remote_probe), in_q, out_q);
+    if (wkind == 0)
+        handle = upipe_wlin_alloc(wlin_mgr, uprobe_use(&main_probe), remote, uprobe_use(&remote_probe), in_q, out_q);
+    else {
+        struct upipe_mgr *wsink_mgr = upipe_wsink_mgr_alloc(xfer_mgr);
+        handle = upipe_wsink_alloc(wsink_mgr, uprobe_use(&main_probe), remote, uprobe_use(&remote_probe), in_q);
+        upipe_mgr_release(wsink_mgr);
+    }
     upipe_mgr_release(wlin_mgr);
     if (!handle) vh_violation("c06:worker:alloc", "wlin allocation failed");
     if (outer_freeze) {
@@ -349,6 +360,16 @@ static void run_case(struct vh_rng *r)
                     }
                     if (e->a == RE_ATTACH && e->thread != 1) vh_violation_noabort("c06:worker:remote-entered-from-wrong-thread:attach_upump_mgr", "attach_upump_mgr ran in thread %d", e->thread);
                     VH_COUNT("c06.remote_entries_checked");
+                    break;
+                case W_REMOTE_FLOWDEF: if (wkind == 1) def_seen = true; break;
+                case W_REMOTE_INPUT:
+                    if (wkind != 1) break;
+                    if (e->thread != 1) vh_violation_noabort("c06:worker:remote-entered-from-wrong-thread:input", "the remote sink got a buffer in thread %d", e->thread);
+                    if (!def_seen) vh_violation_noabort("c06:worker:buffer-before-flow-def", "a buffer reached the remote sink before any flow definition");
+                    if (e->b < next) vh_violation_noabort(e->b + 1 == next ? "c06:worker:duplicated" : "c06:worker:reordered", "seq %" PRIu64 " delivered after %" PRIu64, e->b, next - 1);
+                    else if (e->b > next) vh_violation_noabort("c06:worker:lost", "seq %" PRIu64 " delivered, %" PRIu64 " missing", e->b, next);
+                    next = e->b + 1; got++;
+                    VH_COUNT("c06.worker_deliveries_checked");
                     break;
                 case W_SINK_FLOWDEF: if (e->thread != 0) vh_violation_noabort("c06:worker:wrong-thread:application-side", "the application's sink got a flow definition in thread %d", e->thread); def_seen = true; break;
                 case W_SINK_INPUT:
